@@ -256,6 +256,13 @@ fn grammar() -> Vec<Case> {
         ("CONNECT", "h:", "empty-port"),
         ("CONNECT", ":443", "empty-host"),
         ("CONNECT", "[::1:443", "unbalanced-bracket"),
+        ("GET", "http://h:+80/", "signed-port"),
+        ("GET", "http://h:-80/", "signed-port"),
+        ("CONNECT", "h:+443", "signed-port"),
+        ("GET", "http://h: 80/", "blank-in-port"),
+        ("GET", "http://[zz]/", "bracketed-non-address"),
+        ("CONNECT", "[zz]:443", "bracketed-non-address"),
+        ("CONNECT", "[not an address]:443", "bracketed-non-address"),
     ] {
         v.push(http_case(m, t, 0, l));
     }
@@ -275,6 +282,14 @@ fn socks_cases(rng: &mut Rng) -> Vec<Case> {
         let name = crate::gen::ldh_name(rng, len);
         v.push(socks5_case(3, &name, 80, "socks5-domain", Some((String::from_utf8(name.clone()).unwrap(), 80))));
     }
+    // greetings that offer 'no authentication' among other methods (RFC 1928: the server SELECTS one of the offered methods)
+    for methods in [vec![0u8, 0x80], vec![0x80, 0], vec![2, 1, 0], vec![0, 2], vec![0, 0]] {
+        let mut c = socks5_case(1, &[127, 0, 0, 1], 8081, "socks5-several-methods-offered", Some(("127.0.0.1".into(), 8081)));
+        let mut g = vec![5u8, methods.len() as u8];
+        g.extend_from_slice(&methods);
+        c.phases[0] = g;
+        v.push(c);
+    }
     // unsupported / malformed
     v.push(socks5_case(3, b"", 80, "socks5-empty-domain", None));
     v.push(socks5_case(2, &[1, 2, 3, 4], 80, "socks5-unknown-atyp", None));
@@ -286,6 +301,9 @@ fn socks_cases(rng: &mut Rng) -> Vec<Case> {
     }
     let mut c = socks5_case(1, &[127, 0, 0, 1], 80, "socks5-no-acceptable-method", None);
     c.phases[0] = vec![5, 2, 1, 2]; // GSSAPI and username/password only
+    v.push(c);
+    let mut c = socks5_case(1, &[127, 0, 0, 1], 80, "socks5-no-acceptable-method", None);
+    c.phases[0] = vec![5, 2, 0x80, 0xfe]; // private methods only
     v.push(c);
     v.push(Case { kind: Kind::Socks5, phases: vec![vec![4, 1, 0, 80, 127, 0, 0, 1, 0]], cut_phase: 0, cuts: vec![], payload: vec![], expect: None, label: "socks4".into(), early: 0 });
     v.push(Case { kind: Kind::Plain, phases: vec![vec![0x16, 3, 1, 0, 0xa0, 1, 0, 0, 0x9c, 3, 3]], cut_phase: 0, cuts: vec![], payload: rng.bytes(150), expect: None, label: "tls-client-hello".into(), early: 0 });
